@@ -345,6 +345,35 @@ PROPS["C15"] = {
     "design_ref": "DESIGN.md §7 C15",
 }
 
+PROPS["C16"] = {
+    "title": "Cancelling a pending send or recv loses nothing and corrupts nothing",
+    "module": "Theorems.C16",
+    "theorems": [
+        "Amqp.Cancel.source_send_is_atomic",
+        "Amqp.Cancel.source_recv_parks",
+        "Amqp.Cancel.source_topup_reset_last",
+        "Amqp.Cancel.send_cancel_safe",
+        "Amqp.Cancel.send_order",
+        "Amqp.Cancel.send_safe_unless_cut",
+        "Amqp.Cancel.send_completes",
+        "Amqp.Cancel.drain_makes_room",
+        "Amqp.Cancel.transfers_pos",
+        "Amqp.Cancel.transfers_cover",
+        "Amqp.Cancel.recv_cancel_safe",
+        "Amqp.Cancel.recv_returns_messages",
+        "Amqp.Cancel.parked_is_returned",
+        "Amqp.Cancel.oversize_cancel_cuts",
+        "Amqp.Cancel.unparked_recv_loses",
+    ],
+    "harness": ["cancel"],
+    "gen_files": ["Amqp/Gen/CancelKernels.lean", "Amqp/Gen/LinkSplitKernels.lean"],
+    "technique": "Lean 4 proof by invariant over all interleavings of calls, polls, drops, credit grants and queue draining on poll-granular models of send_payload and recv_inner whose await / state-change order is regenerated from the source; tied to the code by engine-level runs that drop real futures after k polls against a scripted peer",
+    "level_text": "Machine-checked on the model, for every sequence of send calls, polls, drops (at any poll), credit grants and engine drains: as long as each delivery fits the link-to-session queue, what has left the link is a concatenation of whole deliveries, each of a distinct call and in call order, the delivery-count advanced exactly once per delivery that went out (a dropped send used up no credit), every send that returned is among them, and a send that fits completes at the first poll with a credit and an emptied queue; for every sequence of arrivals, recv polls, drops and queue-fullness changes, the deliveries returned, the delivery being put together, the parked transfer and the link's queue are, in this order, exactly the transfers that arrived, every delivery returned is whole, and hence the deliveries returned are the first n messages sent. The positions of the awaits relative to the state changes (credit taken after the last await; permits arm await-free; transfer parked before room is awaited; counter reset after the flow is queued) and transfer_count are regenerated from link/sender_link.rs and link/receiver.rs on every run; the models take them as parameters, and both a counter-model for the old order (unparked_recv_loses) and the residual oversize case (oversize_cancel_cuts) are proved. Tied to the code by runs: a real Sender / Receiver over an in-memory transport against a scripted peer, every send or recv future dropped after 1..8 polls or left to complete, messages of one and several transfers, link-to-session buffers 1 / 2 / 2048, credit Auto(1..100) and one-at-a-time grants with delays; the peer reassembles what it gets and asks the sender for its delivery-count at the end; transfer counts, wire wholeness and the atomic/non-atomic classification are compared with the model line by line.",
+    "level_note": "Trusted: Lean kernel; rs2lean's token-order extraction (first/last occurrence of call names and `.await` in a function body: it sees reordering, not every possible rewrite); the hand-written poll-granular models Amqp/Cancel.lean (a poll runs to the next pending await; tokio's mpsc reserve_many / Notify are assumed cancel-safe as documented); the harness's PollN wrapper and scripted peer. Runtime behaviour the model cannot exhibit: tokio's cooperative budget, wake-up order between the link and the engine tasks. One recorded residue (known_findings.txt): a delivery cut into more transfers than the session buffer holds still goes the per-transfer path and is not cancel-safe.",
+    "assumptions": COMMON_ASSUME + ["tokio::sync::mpsc::Sender::reserve_many and Notify::notified are cancel-safe", "one send at a time per Sender (&mut self)"],
+    "design_ref": "DESIGN.md §7 C16",
+}
+
 PROPS["C14"] = {
     "title": "Failures propagate: no call hangs, every handle learns why",
     "module": "Theorems.C14",
